@@ -9,12 +9,12 @@ def _t(n): return open(os.path.join(_d, n)).read()
 GET = """        ensures match reg_cfg(op@) { Some(c) => r == Ok::<InfixOpConfig, Error>(c), None => r is Err },"""
 OPERATOR = [
   F('InfixOpManager::new', trust=True, spec=""),
-  F('InfixOpManager::get', props=['C01', 'C02', 'C03', 'C08'], spec=GET + "  // @C02,C03,C08 registry.infix_get"),
-  F('InfixOpManager::exist', props=['C01', 'C02', 'C05', 'C08', 'C10'], spec="        ensures r == reg_infix(op@),  // @C02,C05,C08,C10 registry.infix_exist"),
-  F('PrefixOpManager::get', props=['C01', 'C03', 'C08'], spec="        ensures match reg_prefix_h(op@) { Some(h) => r == Ok::<Arc<PrefixOpFunc>, Error>(h), None => r is Err },  // @C03,C08 registry.prefix_get\n            (r is Ok) == prefix_h(op@).is_some(), r matches Ok(t) ==> t == prefix_h(op@).unwrap(),"),
-  F('PrefixOpManager::exist', props=['C01', 'C02', 'C05', 'C08', 'C10'], spec="        ensures r == reg_prefix(op@),  // @C02,C05,C08,C10 registry.prefix_exist"),
-  F('PostfixOpManager::get', props=['C01', 'C03', 'C08'], spec="        ensures match reg_postfix_h(op@) { Some(h) => r == Ok::<Arc<PostfixOpFunc>, Error>(h), None => r is Err },  // @C03,C08 registry.postfix_get\n            (r is Ok) == postfix_h(op@).is_some(), r matches Ok(t) ==> t == postfix_h(op@).unwrap(),"),
-  F('PostfixOpManager::exist', props=['C01', 'C02', 'C05', 'C08', 'C10'], spec="        ensures r == reg_postfix(op@),  // @C02,C05,C08,C10 registry.postfix_exist"),
+  F('InfixOpManager::get', props=['C01!', 'C02', 'C03', 'C08'], spec=GET + "  // @C02,C03,C08 registry.infix_get"),
+  F('InfixOpManager::exist', props=['C01!', 'C02', 'C05', 'C08', 'C10'], spec="        ensures r == reg_infix(op@),  // @C02,C05,C08,C10 registry.infix_exist"),
+  F('PrefixOpManager::get', props=['C01!', 'C03', 'C08'], spec="        ensures match reg_prefix_h(op@) { Some(h) => r == Ok::<Arc<PrefixOpFunc>, Error>(h), None => r is Err },  // @C03,C08 registry.prefix_get\n            (r is Ok) == prefix_h(op@).is_some(), r matches Ok(t) ==> t == prefix_h(op@).unwrap(),"),
+  F('PrefixOpManager::exist', props=['C01!', 'C02', 'C05', 'C08', 'C10'], spec="        ensures r == reg_prefix(op@),  // @C02,C05,C08,C10 registry.prefix_exist"),
+  F('PostfixOpManager::get', props=['C01!', 'C03', 'C08'], spec="        ensures match reg_postfix_h(op@) { Some(h) => r == Ok::<Arc<PostfixOpFunc>, Error>(h), None => r is Err },  // @C03,C08 registry.postfix_get\n            (r is Ok) == postfix_h(op@).is_some(), r matches Ok(t) ==> t == postfix_h(op@).unwrap(),"),
+  F('PostfixOpManager::exist', props=['C01!', 'C02', 'C05', 'C08', 'C10'], spec="        ensures r == reg_postfix(op@),  // @C02,C05,C08,C10 registry.postfix_exist"),
   F('InfixOpManager::register', trust=True, spec="        requires inited(), 0 < precidence <= 1_000_000_000,"),
   F('InfixOpManager::get_handler', props=['C08'],
     spec="        ensures match reg_cfg(op@) { Some(c) => r == Ok::<Arc<InfixOpFunc>, Error>(c.3), None => r is Err },  // @C08 dispatch.infix_handler\n            (r is Ok) == infix_h(op@).is_some(), r matches Ok(t) ==> t == infix_h(op@).unwrap(),"),
@@ -55,7 +55,7 @@ UNIT = Unit('lb', [
         regex_rules=[('rule30_lock_guard', r'self\.store\.lock\(\)\.unwrap\(\)', 'self.vx_lock()')],
         keep_fns=lambda k: k in set(s.key for s in OPERATOR),
         item_attr={'InfixOpType': '#[verifier::external_derive]', 'InfixOpAssociativity': '#[verifier::external_derive]', 'InfixOpConfig': '#[verifier::external_derive]'}),
-    Src('function.rs', fns=[F('InnerFunctionManager::get', props=['C01', 'C03', 'C08'],
+    Src('function.rs', fns=[F('InnerFunctionManager::get', props=['C01!', 'C03', 'C08'],
             spec="        ensures match reg_func_h(name@) { Some(h) => r == Ok::<Arc<InnerFunction>, Error>(h), None => r is Err },  // @C03,C08 registry.function_get\n            (r is Ok) == func_h(name@).is_some(), r matches Ok(t) ==> t == func_h(name@).unwrap(),")],
         props=['C08'], keep_items=lambda kind, name: (kind == 'impl' and name == 'InnerFunctionManager'),
         keep_fns=lambda k: k == 'InnerFunctionManager::get',
